@@ -7,6 +7,7 @@ CONSTANTS
   Threshold = 99
   Depth = 4
   Record = FALSE
+  WithFail = TRUE
   WithCrash = TRUE
   KnownMask = {"C01-removed-while-write-pending", "C10-capacity-lagging-index"}
 INVARIANT NoClauseFalsified
